@@ -162,4 +162,7 @@ theorem db_onClause (w : World) (s t : Nat) (c : Clause) :
 @[simp] theorem db_onClause_same (w : World) (s : Nat) (c : Clause) : (w.onClause s c).db s = c :: w.db s := by
   simp [db_onClause]
 
+@[simp] theorem nVarsOf_onNVars (w : World) (s t : Nat) : (w.onNVars s).nVarsOf t = w.nVarsOf t := rfl
+@[simp] theorem nVarsOf_onReply (w : World) (s t : Nat) (r : Reply) : (w.onReply s r).nVarsOf t = w.nVarsOf t := rfl
+
 end Crusta
